@@ -216,10 +216,15 @@ class World(object):
         from clastic import Application, StaticApplication
         self.tree = tree
         self.prefix = prefix
-        self.roots = {False: ['root'], True: ['root', 'root2'], 'reversed': ['root2', 'root']}[two_paths]
+        self.roots = {False: ['root'], True: ['root', 'root2'], 'reversed': ['root2', 'root'], 'nested': ['root', 'root2']}[two_paths]
         s1 = StaticApplication([os.path.join(tree.base, r) for r in self.roots])
         s2 = StaticApplication(tree.fb)
-        self.app = Application([(prefix, s1), (prefix, s2)], slash_mode=mode)
+        if two_paths == 'nested':
+            # mounted under /s in an application that is itself embedded under /v1
+            inner = Application([('/s', s1), ('/s', s2)], slash_mode=mode)
+            self.app = Application([('/v1', inner)], slash_mode=mode)
+        else:
+            self.app = Application([(prefix, s1), (prefix, s2)], slash_mode=mode)
         self.mode = mode
         self.order = self.roots + ['fb']
 
@@ -302,6 +307,8 @@ def configs(tier):
     # the listing order of the search paths is their priority (not their alphabetical order)
     out.append(('/s', 'redirect', 'reversed'))
     out.append(('/', 'strict', 'reversed'))
+    out.append(('/v1/s', 'redirect', 'nested'))
+    out.append(('/v1/s', 'strict', 'nested'))
     return out
 
 
